@@ -2059,7 +2059,23 @@ def run_s6(ctx):
                 s6_compare(ctx, "independent", r, expn,
                            # simultaneous: the value reads the CALLER's k, fn's own k becomes ksub
                            lambda e, vfn=vfn, ksub=ksub: base(vfn(e), e["k"] if ksub is None else ksub), rng, wit, py)
-    # ---- Constant
+    # ---- Constant: renames onto another const input that is substituted in the same call (and swaps), explicitly
+    argd0 = _dyarr(rng, (2,))
+    c0 = Constant(OrderedDict(a=Real, b=Real), Tensor(argd0, OrderedDict(j=Bint[2])))
+    for sig in ({"a": "b", "b": 0.5}, {"a": "b", "b": "a"}, {"a": Variable("b", Real) + 1.0, "b": 0.5}, {"a": "b"}, {"a": "z", "b": "a"},
+                {"a": "b", "b": Tensor(np.array([0.5, 1.0]), OrderedDict(j=Bint[2]))}):
+        expn = {"j"} | {v for v in sig.values() if isinstance(v, str)} | set().union(*[set(getattr(v, "inputs", ())) for v in sig.values()]) \
+            | ({"a", "b"} - set(sig))
+        try:
+            r = c0(**sig)
+        except DECLINE as ex:
+            ctx.count(f"S6:constant:declined:{type(ex).__name__}")
+            continue
+        if any(n_ not in r.inputs for n_ in expn):
+            ctx.count("S6:constant:const-input-of-a-value-dropped(provenance lost, value unaffected)")
+        s6_compare(ctx, "constant", r, expn, lambda e: float(argd0[e["j"]]), rng,
+                   {"stream": "S6.constant-collide", "sigma": {k: str(v) for k, v in sig.items()}},
+                   hdr + f"# Constant(OrderedDict(a=Real, b=Real), Tensor({argd0.tolist()}, j))(**{ {k: str(v) for k, v in sig.items()} })\nFAILS = True\n")
     for trial in range(30):
         consts = OrderedDict()
         for nm in rng.sample(["a", "b", "c"], rng.choice([1, 2, 3])):
@@ -2095,6 +2111,12 @@ def run_s6(ctx):
         except DECLINE as ex:
             ctx.count(f"S6:constant:declined:{type(ex).__name__}")
             continue
+        # not gated (C04 lets an evaluated result omit inputs its value does not depend on — a Constant's value never depends on
+        # its const inputs), but measured: Constant.eager_subs drops a value's input that is itself a substituted const input
+        # (`if name not in self.inputs`), e.g. Constant({x,y}, a)(x='y', y=0) and the swap lose y / both
+        lost = sorted(n_ for n_ in exp_names if n_ not in r.inputs)
+        if lost:
+            ctx.count("S6:constant:const-input-of-a-value-dropped(provenance lost, value unaffected)")
         s6_compare(ctx, "constant", r, exp_names, lambda e, jsub=jsub: float(argd[jsub if jsub is not None else e["j"]]), rng, wit,
                    hdr + f"# Constant({dict(consts)}, Tensor({argd.tolist()}, j))(**{wit['sigma']})\nFAILS = True\n")
     # ---- MarkovProduct (lazy) and Scatter (lazy): renamings are right; other shapes are the regions of two findings
